@@ -129,8 +129,18 @@ def splitSlash : Text → Option (Text × Text)
       | some (a, b) => some (c :: a, b)
       | none => none
 
-/-- `types.ParseArchitecture` -/
-def parseArch (s : Text) : Text := (lookupT s parseArchTable).getD s
+/-- `strings.NewReplacer("/", "%2F", ".", "%2E").Replace` -/
+def escapeArch (s : Text) : Text :=
+  s.flatMap fun c => if c = '/' then "%2F".toList else if c = '.' then "%2E".toList else [c]
+
+/-- an architecture is one path element (it names the architecture directory of a repository, the per-architecture
+working directory and files such as `apko-<arch>.tar.gz`): `.`, `..` and anything with a separator is escaped
+(C18, F18f) -/
+def plainArch (s : Text) : Text :=
+  if s = ".".toList ∨ s = "..".toList ∨ '/' ∈ s then escapeArch s else s
+
+/-- `types.ParseArchitecture`: the names in the switch, then any other string as one plain path element -/
+def parseArch (s : Text) : Text := (lookupT s parseArchTable).getD (plainArch s)
 /-- `Architecture.ToAPK` -/
 def toAPK (a : Text) : Text := (lookupT (parseArch a) toAPKTable).getD (parseArch a)
 /-- `Architecture.ToOCIPlatform` (OS is the constant "linux") -/
@@ -147,7 +157,10 @@ def Spec.aliases : List (Text × Text) :=
 def Spec.knownArchs : List Text :=
   ["386", "amd64", "arm64", "arm/v6", "arm/v7", "loong64", "ppc64le", "riscv64", "s390x"].map String.toList
 
-def Spec.canonArch (s : Text) : Text := (lookupT s Spec.aliases).getD s
+/-- an alias denotes its architecture, a supported `architecture/variant` string denotes itself; any other name is kept as
+ONE plain path element (a name that is not one — `.`, `..`, anything with a separator — is escaped: C18) -/
+def Spec.canonArch (s : Text) : Text :=
+  (lookupT s Spec.aliases).getD (if s ∈ Spec.knownArchs then s else plainArch s)
 
 /-- the apk name of an architecture: the alias table read backwards -/
 def Spec.apkNames : List (Text × Text) := Spec.aliases.map fun p => (p.2, p.1)
